@@ -404,6 +404,11 @@ class Unit:
                     l['prefix'].append(rest)
                 elif sub == 'body_prefix':
                     l['body_prefix'].append(rest)
+                elif sub == 'suffix':
+                    cid, t = self._cid(rest, cur.name, 'hint')
+                    self.clauses[cid].kind = 'hint'
+                    if cid not in self.dropped_hints:
+                        l['suffix'].append((cid, t))
                 elif sub == 'iter_name':
                     l['iter_name'] = rest.strip()
                 elif sub == 'for_continue':
@@ -779,3 +784,45 @@ def run_replay(u, gen_path, scratch, clause_ids, seed, one_input=None):
                     pass
         out[cid] = found or dict(found=False, note='no result line; rc=%s stderr=%s' % (q.returncode, q.stderr[-400:]))
     return out
+
+
+def run_witnesses(uid, repo, findings, seed=0):
+    """known findings: compile the replay binary of the unit (the real extracted code + verified oracle) and run it on
+    each listed witness input with clause id `witness`; returns {finding id: result dict}"""
+    scratch = tempfile.mkdtemp(prefix='vx-wit-%s-' % uid)
+    try:
+        u = Unit(uid, repo)
+        try:
+            gen = u.generate()
+        except (LostAnchor, Undecided) as e:
+            return {f['id']: dict(error='unit does not generate: %s' % e) for f in findings}
+        if not u.has_replay:
+            return {f['id']: dict(error='unit has no replay harness') for f in findings}
+        gp = os.path.join(scratch, 'gen_%s.rs' % uid)
+        open(gp, 'w').write(gen)
+        binp = os.path.join(scratch, 'replay_bin')
+        rust_args = ['-o', binp]
+        if u.needs_deps:
+            rust_args += deps_args()
+        cmd = ['verus', gp, '--compile', '--no-verify'] + u.verus_args + ['--'] + rust_args
+        p = subprocess.run(cmd, capture_output=True, text=True, cwd=scratch, timeout=900)
+        if not os.path.exists(binp):
+            return {f['id']: dict(error='replay binary did not build: ' + p.stderr[-800:]) for f in findings}
+        out = {}
+        for f in findings:
+            try:
+                q = subprocess.run([binp, 'witness', str(seed), f['witness_input']], capture_output=True, text=True, timeout=300)
+            except subprocess.TimeoutExpired:
+                out[f['id']] = dict(error='witness run timed out')
+                continue
+            found = None
+            for l in q.stdout.split('\n'):
+                if l.startswith('{'):
+                    try:
+                        found = json.loads(l)
+                    except Exception:
+                        pass
+            out[f['id']] = found or dict(error='no result line; rc=%s stderr=%s' % (q.returncode, q.stderr[-300:]))
+        return out
+    finally:
+        shutil.rmtree(scratch, ignore_errors=True)
